@@ -46,7 +46,7 @@ OPEN_PREFIX = ["<table>", "<table><tr>", "<table><tr><td>", "<table><tbody>", "<
                "<table><tr><td><form>", "<select><optgroup>", "<pre>\n", "<script>", "<style>", "<iframe>", "<title>", "<table><tr><td><table>"]
 BAD = ["<b>", "x", "</p>", "<td>", "</table>", "<form>", "<a href=v>", "\x00", "<table>", "</b>", "<li>", "<body>", "<html a=1>", "&#0;", "<input>", "<select>", "</tr>", "<!DOCTYPE html>", "</form>",
        "<svg>", "<i>", "<div>", "<p>", "<h2>", "<button>", "<nobr>", "</div>", "<caption>", "<col>", "<frameset>", "<head>", "<textarea>", "<plaintext>", "</body>x", "<image>", "&bogus;", "<a b=1 b=2>",
-       "</br>", "<option>", "</select>", "<tr>"]
+       "</br>", "<option>", "</select>", "<tr>", "</title x>", "</textarea a=b>", "</title a=1 a=2>", "</script s>", "</style/>"]
 ENT_TEXTS = ["caf&eacute; au lait &nbsp;x &lt;y &quot;z&amp;w &euro;5", "&nbsp;&lt;&quot;&not;&notin;&euro;&nbsp;&lt;&quot;", "a&zwj;b&zeta;c&Zopf;&le;&ge;&lang;&larr;",
              "&aacute;&Aacute;&amp;&ang;&bull;&copy;&eacute;&ecirc;&egrave;", "x &quot;q&quot; &quest; &quot; &lt; &lambda; &le;", "&yen;&yacute;&xi;&weierp;&uuml;&times;&theta;&sigma;"]
 NAMES = ["e%d" % i for i in range(40)]
@@ -97,7 +97,7 @@ def _digest(x):
     return hashlib.sha1(repr(x).encode("utf-8", "surrogatepass")).hexdigest()
 
 
-PARSER_KINDS = ("etree", "dom", "strict", "etree-root")
+PARSER_KINDS = ("etree", "dom", "strict", "etree-root", "etree-alt")
 
 
 def _mk_parser(kind):
@@ -105,6 +105,11 @@ def _mk_parser(kind):
         return h5.parser("etree", True, strict=True, full_tree=True)
     if kind == "etree-root":
         return h5.parser("etree", True, full_tree=False)     # getTreeBuilder("etree", fullTree=False): same factory cache, other keyword value
+    if kind == "etree-alt":
+        # the builder for another ElementTree implementation, asked for without further keywords: getTreeBuilder("etree", implementation=X)
+        import html5lib
+        from html5lib import treebuilders
+        return html5lib.HTMLParser(treebuilders.getTreeBuilder("etree", implementation=h5.alt_etree()))
     return h5.parser(kind, True, full_tree=True)
 
 
@@ -143,7 +148,8 @@ def _run_parse(parser, op, source=None):
         return ("crash", type(e).__name__, str(e)[:150])
     errs = [(code, pos, dict(v) if isinstance(v, dict) else v) for (pos, code, v) in parser.errors]
     enc = parser.documentEncoding if op.get("bytes") else None
-    return ("ok", obs.flat(r), errs, enc)
+    # the class of the returned object is part of the result: it is what implementation= selects
+    return ("ok", obs.flat(r), errs, enc, "%s.%s" % (type(r).__module__, type(r).__name__))
 
 
 class _Sched(object):
@@ -346,7 +352,7 @@ def _brief(r):
     if r is None:
         return "None"
     if r[0] == "ok":
-        return "tree %s errors %s enc %s" % (obs.dump(r[1], 12).replace("\n", " "), short([e[0] for e in r[2]][:4], 80), r[3])
+        return "%s tree %s errors %s enc %s" % (r[4] if len(r) > 4 else "", obs.dump(r[1], 12).replace("\n", " "), short([e[0] for e in r[2]][:4], 80), r[3])
     return short(r, 200)
 
 
@@ -414,7 +420,7 @@ class ReuseMachine(RuleBasedStateMachine):
         if res is not None:
             self.failed = res
 
-    @rule(d=_doc_free, p=st.sampled_from(["etree", "dom", "strict", "strict", "etree-root"]), scripting=st.booleans(), container=st.sampled_from(CONTAINERS), as_bytes=st.booleans())
+    @rule(d=_doc_free, p=st.sampled_from(["etree", "dom", "strict", "strict", "etree-root", "etree-alt"]), scripting=st.booleans(), container=st.sampled_from(CONTAINERS), as_bytes=st.booleans())
     def parse(self, d, p, scripting, container, as_bytes):
         text, stateful = d
         if as_bytes and container is None:
@@ -430,7 +436,7 @@ class ReuseMachine(RuleBasedStateMachine):
 
     # rules are chosen uniformly: two more spellings of the plain document parse give it the weight that histories of
     # (aborted parse, completed parse) pairs on one object need
-    @rule(d=_doc, p=st.sampled_from(["etree", "dom", "strict", "strict", "strict"]), scripting=st.booleans())
+    @rule(d=_doc, p=st.sampled_from(["etree", "dom", "strict", "strict", "strict", "etree-alt"]), scripting=st.booleans())
     def parse_doc(self, d, p, scripting):
         self._do({"op": "parse", "p": p, "text": d[0], "scripting": scripting, "container": None, "bytes": False, "stateful": d[1]})
 
@@ -540,10 +546,10 @@ def run_shard(desc, seed, tier):
                                                                             phases=[Phase.generate], suppress_health_check=list(HealthCheck)))
     # fresh-interpreter sample: every parser kind among the isolated ones (one interpreter state per call), the rest in one batch
     if log:
-        n_iso = 40 if tier == "quick" else 200
+        n_iso = 50 if tier == "quick" else 250
         iso, seen = [], {}
         for k, (op, dg) in enumerate(log):
-            if seen.get(op["p"], 0) < n_iso // 3:
+            if seen.get(op["p"], 0) < n_iso // len(PARSER_KINDS):
                 seen[op["p"]] = seen.get(op["p"], 0) + 1
                 iso.append(k)
         iso = iso[:n_iso]
